@@ -75,11 +75,6 @@ VAL = {
     "dict-k": lambda: {"k": 1},
 }
 VALUES = list(VAL)
-VCLASS = {
-    "null": "null", "true": "bool", "0": "num", "-1": "num", "1": "num", "0.5": "num", "nan": "nan",
-    "inf": "inf", "-inf": "inf", "huge": "huge", "str-empty": "str", "str-x": "str", "str-1": "str",
-    "list-empty": "list", "list-1": "list", "dict-empty": "dict", "dict-k": "dict",
-}
 # reduced alphabet for the non-sibling pairs of the thorough tier (one representative per class)
 VALUES_REDUCED = ["null", "-1", "1", "0.5", "nan", "huge", "str-x", "dict-empty"]
 ROOT_VALUES = ["null", "true", "0", "1", "nan", "huge", "str-empty", "str-x", "list-empty", "list-1"]
@@ -224,10 +219,25 @@ def dev_class(d) -> str:
     return "root"
 
 
-def devs_class(devs) -> str:
+def devs_class(devs, levels: bool = False) -> str:
+    """signature component of a set of deviations.  With levels=True (clause e) a special key carries the dict
+    level it was added at, near-miss keys count as unknown keys, and a set-deviation that is a sibling of a
+    special key is abbreviated to '<level>.*' (the defect then is about the mix of keys, not about that leaf)"""
     if not devs:
         return "default"
-    return "+".join(sorted(set(dev_class(d) for d in devs)))
+    if not levels:
+        return "+".join(sorted(set(dev_class(d) for d in devs)))
+    key_levels = set(tuple(d["at"]) for d in devs if d["op"] == "key")
+    out = set()
+    for d in devs:
+        if d["op"] == "key":
+            cls = "nonstr-key" if KEY_CLASS[d["k"]] == "nonstr-key" else "unknown-key"
+            out.add("%s@%s" % (cls, ".".join(d["at"]) or "<root>"))
+        elif d["op"] == "set" and tuple(d["path"][:-1]) in key_levels:
+            out.add("%s.*" % (".".join(d["path"][:-1]) or "<root>"))
+        else:
+            out.add(dev_class(d))
+    return "+".join(sorted(out))
 
 
 def compatible(a, b) -> bool:
@@ -546,10 +556,6 @@ def _str_list(v):
     return None if (isinstance(v, list) and all(isinstance(x, str) for x in v)) else "type"
 
 
-def _bool(v):
-    return None if isinstance(v, bool) else "type"
-
-
 def _finite(v):
     if not _isnum(v):
         return "nan" if isinstance(v, float) else "type"
@@ -588,8 +594,6 @@ RANGES: List[Tuple[Tuple[str, ...], Any]] = [
     (("t2", "ranking", "alpha_sim"), _rng(0, 1)),
     (("t2", "ranking", "beta_recency"), _rng(0, 1)),
     (("t2", "ranking", "gamma_importance"), _rng(0, 1)),
-    (("t2", "hybrid", "enabled"), _bool),
-    (("t2", "hybrid", "use_graph"), _bool),
     (("t2", "hybrid", "anchor_top_m"), _rng(1, **I)),
     (("t2", "hybrid", "walk_hops"), _rng(1, 2, **I)),
     (("t2", "hybrid", "edge_threshold"), _rng(0, 1)),
@@ -619,8 +623,6 @@ RANGES: List[Tuple[Tuple[str, ...], Any]] = [
     (("t3", "backend"), _enum("rulebased", "llm")),
     (("t3", "tokens"), _rng(1, **I)),
     (("t3", "temp"), _rng(0, 1)),
-    (("t3", "allow_reflection"), _bool),
-    (("t3", "apply_ops"), _bool),
     (("t3", "dialogue", "template"), _nonempty_str),
     (("t3", "dialogue", "include_top_k_snippets"), _rng(0, **I)),
     (("t3", "policy", "tau_high"), _rng(0, 1)),
@@ -629,16 +631,12 @@ RANGES: List[Tuple[Tuple[str, ...], Any]] = [
     (("t3", "reflection", "backend"), _enum("rulebased", "llm")),
     (("t3", "reflection", "summary_tokens"), _rng(0, **I)),
     (("t3", "reflection", "topk_snippets"), _rng(0, **I)),
-    (("t3", "reflection", "embed"), _bool),
-    (("t3", "reflection", "log"), _bool),
     (("t3", "llm", "provider"), _enum("fixture", "ollama")),
     (("t3", "llm", "model"), _nonempty_str),
     (("t3", "llm", "endpoint"), _nonempty_str),
     (("t3", "llm", "max_tokens"), _rng(1, **I)),
     (("t3", "llm", "temp"), _rng(0, 1)),
     (("t3", "llm", "timeout_ms"), _rng(1, **I)),
-    (("t3", "llm", "fixtures", "enabled"), _bool),
-    (("t4", "enabled"), _bool),
     (("t4", "delta_norm_cap_l2"), _rng(0, lo_open=True)),
     (("t4", "novelty_cap_per_node"), _rng(0, 1, lo_open=True)),
     (("t4", "churn_cap_edges"), _rng(0, **I)),
@@ -647,11 +645,9 @@ RANGES: List[Tuple[Tuple[str, ...], Any]] = [
     (("t4", "snapshot_every_n_turns"), _rng(1, **I)),
     (("t4", "snapshot_dir"), _nonempty_str),
     (("t4", "cache_bust_mode"), _enum("none", "on-apply")),
-    (("t4", "cache", "enabled"), _bool),
     (("t4", "cache", "max_entries"), _rng(0, **I)),
     (("t4", "cache", "ttl_sec"), _rng(0, **I)),
     (("t4", "cache", "namespaces"), _str_list),
-    (("graph", "enabled"), _bool),
     (("graph", "coactivation_threshold"), _rng(0, 1)),
     (("graph", "observe_top_k"), _rng(1, **I)),
     (("graph", "pair_cap_per_obs"), _rng(0, **I)),
@@ -659,21 +655,17 @@ RANGES: List[Tuple[Tuple[str, ...], Any]] = [
     (("graph", "update", "alpha"), _rng(0, lo_open=True)),
     (("graph", "decay", "half_life_turns"), _rng(1, **I)),
     (("graph", "decay", "floor"), _rng(0)),
-    (("graph", "merge", "enabled"), _bool),
     (("graph", "merge", "min_size"), _rng(2, **I)),
     (("graph", "merge", "min_avg_w"), _rng(0, 1)),
     (("graph", "merge", "max_diameter"), _rng(1, **I)),
     (("graph", "merge", "cap_per_turn"), _rng(0, **I)),
-    (("graph", "split", "enabled"), _bool),
     (("graph", "split", "weak_edge_thresh"), _rng(0, 1)),
     (("graph", "split", "min_component_size"), _rng(2, **I)),
     (("graph", "split", "cap_per_turn"), _rng(0, **I)),
-    (("graph", "promotion", "enabled"), _bool),
     (("graph", "promotion", "label_mode"), _enum("lexmin", "concat_k")),
     (("graph", "promotion", "topk_label_ids"), _rng(1, **I)),
     (("graph", "promotion", "attach_weight"), _rng(-1, 1)),
     (("graph", "promotion", "cap_per_turn"), _rng(0, **I)),
-    (("scheduler", "enabled"), _bool),
     (("scheduler", "policy"), _enum("round_robin", "fair_queue")),
     (("scheduler", "quantum_ms"), _rng(1, **I)),
     (("scheduler", "budgets", "t1_pops"), _opt(_rng(0, **I))),
@@ -717,9 +709,7 @@ def check_ranges(norm) -> List[Tuple[str, str]]:
         if r:
             bad.append((".".join(path), r))
     # sections that must be objects when present
-    for path in (("t1",), ("t2",), ("t3",), ("t4",), ("graph",), ("scheduler",), ("perf",), ("t2", "quality"),
-                 ("t1", "decay"), ("t1", "edge_type_mult"), ("t4", "cooldowns"), ("t1", "cache"), ("t2", "cache"),
-                 ("t4", "cache"), ("t2", "hybrid"), ("t2", "ranking")):
+    for path in (("perf",), ("t2", "quality"), ("t1", "decay"), ("t1", "edge_type_mult")):
         v = _get(norm, path)
         if v is not MISSING and v is not None and not isinstance(v, dict):  # "must be an object" (or null)
             bad.append((".".join(path), "type"))
@@ -1205,8 +1195,6 @@ def _validate_worker(chunk, st: Stats, mode, accfile_dir, default_norm_c):
                     mdevs = _minimise(devs, kind, detail) if len(devs) > 0 else devs
                     st.violation(_sig(kind, detail, mdevs), what if mdevs == devs else what + " [minimised to %s]" % _describe(mdevs),
                                  _case(mdevs))
-                if not viols and len(st.samples) < 2 and len(devs) >= 1 and h64(json.dumps(devs, sort_keys=True)) % 997 == 0:
-                    st.sample({"devs": devs, "input": _describe(devs), "verdict": info["verdict"], "errs": (info["errs"] or [])[:2]})
 
 
 def _engine_worker(chunk, st: Stats, scratch, base_fail_types):
@@ -1231,7 +1219,7 @@ def _engine_worker(chunk, st: Stats, scratch, base_fail_types):
                     if any(x[0] == etype for x in f2):
                         mdevs = cand
                         break
-            sig = "e:engine-raises:%s" % devs_class(mdevs)
+            sig = "e:engine-raises:%s" % devs_class(mdevs, levels=True)
             st.violation(sig, "accepted config %s: turn on world %s raised %s at %s" % (_describe(mdevs), world, msg, where),
                          _case(mdevs, engine=True))
     shutil.rmtree(workdir, ignore_errors=True)
@@ -1467,6 +1455,11 @@ def run(run: Run) -> None:
 
     _ph("base")
     run.sample({"devs": [], "input": "{}", "verdict": info0["verdict"], "warnings": info0["warnings"]})
+    for devs in ([dev_set(("t1", "node_budget"), "nan")], [dev_key(("t2", "hybrid"), "#5")], [dev_set(("perf",), "list-1")],
+                 [dev_set(("t4", "cache", "namespaces"), "list-empty")], [dev_root("list-1")]):
+        _, inf = check_input(devs)
+        run.sample({"devs": devs, "input": _describe(devs), "verdict": inf["verdict"], "errs": (inf["errs"] or [])[:2],
+                    "warnings": inf["warnings"]})
     # ---- k <= 1
     S = singles()
     run.notes["singles"] = len(S)
@@ -1550,7 +1543,7 @@ def replay(case) -> List[Tuple[str, str]]:
         if case.get("engine") or info["verdict"] == "accept":
             fails, _ = engine_check(devs, os.path.join(scratch, "eng"))
             for etype, where, msg, world in fails:
-                out.append(("e:engine-raises:%s" % devs_class(devs),
+                out.append(("e:engine-raises:%s" % devs_class(devs, levels=True),
                             "accepted config %s: turn on world %s raised %s at %s" % (_describe(devs), world, msg, where)))
         if case.get("cli"):
             v, n, skipped = cli_check(devs, scratch)
